@@ -287,3 +287,6 @@ MANIFEST = dict(
          "exception of type RecordingKeyError is outside the domain (indistinguishable from a missing key).",
     technique="Coq proof (structural induction + case analysis of the decorator in playback mode = declarative policy) + "
               "exhaustive option-grid correspondence by vm_compute")
+
+
+__import__("props.alias_probes", fromlist=["install"]).install(globals(), "C02")     # probe stream "alias" (implementation only)
